@@ -41,7 +41,7 @@ EXPLANATION = ("PROVED (z3, per operation, as a step on the ghost database): del
 TRUSTED = ["contracts/spec_import.py (reference model)", "T3 SQL model", "contracts/importer.py"]
 ASSUMPTIONS = ["A-S2 committed data are what a new connection reads; uncommitted work of a failed importer is rolled back", "A-P shutil.copy2 copies the file's bytes"]
 PRECONDITIONS = ["ids unique per step unless a merge strategy is given (C05)"]
-FUNCTIONS = ["gffutils.interface:FeatureDB.delete", "gffutils.interface:FeatureDB.add_relation", "gffutils.interface:FeatureDB._update", "gffutils.interface:FeatureDB.update",
+FUNCTIONS = ["gffutils.create:_DBCreator._insert", "gffutils.create:_DBCreator._replace", "gffutils.interface:FeatureDB.delete", "gffutils.interface:FeatureDB.add_relation", "gffutils.interface:FeatureDB._update", "gffutils.interface:FeatureDB.update",
              "gffutils.interface:FeatureDB.__init__", "gffutils.create:_DBCreator.__init__", "gffutils.create:_DBCreator._finalize", "gffutils.create:_GFFDBCreator._update_relations"]
 
 
@@ -141,6 +141,30 @@ def unit_delete(U):
                     U.prove(base + ".backup#p%d" % p.index, "make_backup on a file database ==> the copy to '<dbfn>.bak' precedes every other effect; otherwise no copy", [], z3.BoolVal(bool(okb)), {}, replay=replay)
 
 
+def _replay_writeback(m=None):
+    """replay: counters under bases that are not featuretypes ('autoincrement:X' from a callable id_spec) and per-type counters
+    are stored by the import and continue after reopening"""
+    import tempfile, os
+    d = tempfile.mkdtemp()
+    try:
+        fn = os.path.join(d, "w.db")
+        mk = lambda ft, s_: F.Feature(seqid="c", featuretype=ft, start=s_, end=s_ + 4, attributes={"Note": ["n"]})
+        spec = lambda f: "autoincrement:X" if f.featuretype == "exon" else None
+        gffutils.create_db([mk("exon", 1), mk("exon", 10), mk("gene", 1)], fn, id_spec=spec).conn.close()
+        db = gffutils.FeatureDB(fn)
+        stored = sorted(map(tuple, db.conn.execute("SELECT base, n FROM autoincrements")))
+        try:
+            db.update([mk("exon", 20), mk("gene", 30)], id_spec=spec)
+            ids = sorted(f.id for f in db.all_features())
+        except Exception as e:
+            ids = "raised %r" % (e,)
+        exp = ["X_1", "X_2", "X_3", "gene_1", "gene_2"]
+        return {"inputs": "create_db(2 exons keyed 'autoincrement:X', 1 id-less gene); reopen; update(1 exon, 1 gene)", "expected": [[("X", 2), ("gene", 1)], exp], "observed": [stored, ids],
+                "violates": stored != [("X", 2), ("gene", 1)] or ids != exp}
+    finally:
+        shutil.rmtree(d, ignore_errors=True)
+
+
 def _native_delete(form):
     import tempfile, os
     d = tempfile.mkdtemp()
@@ -177,6 +201,25 @@ def _native_delete(form):
             want = sorted((set(exp_ids) | {"fresh"}) - {"z"})
             if after != want:
                 return {"inputs": {"history": "_insert(fresh) without commit; delete('z', make_backup=True); reopen"}, "expected": want, "observed": after, "violates": True}
+        if not bad:
+            # "... and nothing else": the other tables - the duplicates records that later merges consult, the stored counters,
+            # directives, meta - are what they were
+            fn2 = os.path.join(d, "d2.db")
+            mk2 = lambda s_: F.Feature(seqid="c", featuretype="t", start=s_, end=s_ + 4, attributes={"ID": ["k"]})
+            dbk = gffutils.create_db([mk2(1), mk2(50), mk2(90), mk("g")], fn2, merge_strategy="merge")
+            tabs = ("duplicates", "autoincrements", "directives", "meta")
+            snap = lambda c: {t: sorted(map(tuple, c.execute("SELECT * FROM %s" % t))) for t in tabs}
+            before = snap(dbk.conn)
+            dbk.delete("k", make_backup=False)
+            dbk.conn.close()
+            import sqlite3 as _sq
+            c2 = _sq.connect(fn2)
+            after2 = snap(c2)
+            left = sorted(r[0] for r in c2.execute("SELECT id FROM features"))
+            c2.close()
+            if after2 != before or left != ["g", "k_1", "k_2"]:
+                return {"inputs": {"history": "create_db([k, k, k, g] differing in coordinates, merge_strategy=merge); delete('k'); reopen"}, "expected": [before, ["g", "k_1", "k_2"]],
+                        "observed": [after2, left], "violates": True}
         return {"inputs": {"form": form}, "expected": [exp_ids, sorted(exp_rel)], "observed": [got_ids, sorted(rel1), "bak==pre: %s" % (bak == pre)], "violates": bad}
     finally:
         shutil.rmtree(d, ignore_errors=True)
@@ -420,7 +463,8 @@ def unit_update(U):
                   and isinstance(byt["meta"].args, dict) and byt["meta"].args.get("version") == version.version and isinstance(byt["meta"].args.get("dialect"), IM.OpaqueJSON)
                   and byt["meta"].args["dialect"].of is p.value[0].iterator.dialect
                   and [e.kind for e in effs].count("commit") >= 1 and not [e for e in effs if e.kind in ("update", "delete")])
-        U.prove("C10.finalize.writeback#p%d" % p.index, "_finalize writes every counter (INSERT OR REPLACE INTO autoincrements), the directives in order and (version, dialect JSON) to meta, then commits", [], z3.BoolVal(bool(ok)), {})
+        U.prove("C10.finalize.writeback#p%d" % p.index, "_finalize writes every counter (INSERT OR REPLACE INTO autoincrements), the directives in order and (version, dialect JSON) to meta, then commits", [], z3.BoolVal(bool(ok)), {},
+                replay=_replay_writeback)
 
     def run4(ctx):
         rows = {"meta": [ghostdb.GhostRow(["version", "dialect"], ["0.x", IM.OpaqueJSON({"fmt": "gff3"})])],
